@@ -366,6 +366,19 @@ func Harness_C08(n int) {
 	symReach("end")
 }
 ''' % ("\to := runReal(in)" if g.get("_optimized") else "\tmemo := symBool(\"memoize\")\n\to := runReal(in, Memoize(memo))"))
+    if "C07b" in props:
+        s.append('''
+// C07(b): a parser generated without -support-left-recursion never re-enters
+// a rule at an offset at which that rule is already being evaluated (engine
+// monitor on parseRule; natively the symptom is a stack overflow).
+func Harness_C07b(n int) {
+	in := symInput(n, true)
+	symMonitor("reentry")
+	o := runReal(in)
+	symNote(outcomeNote(o))
+	symReach("end")
+}
+''')
     if "C11" in props:
         s.append('''
 // C11: error contract under a symbolic fault plan.
